@@ -6,7 +6,7 @@
 # and stores patch, demo and meta.json under /verif/seeded/<ID>-<letter>/.
 set -u
 ID=$1; L=$2; shift 2; CHECKS=${*:-$ID}
-W=/tmp/seed-$ID; O=/tmp/seed-$ID-out; D=/verif/seeded/$ID-$L
+P=${SEED_PREFIX:-seed}; W=/tmp/$P-$ID; O=/tmp/$P-$ID-out; D=/verif/seeded/$ID-$L
 export GOFLAGS=-mod=mod GOPROXY=off
 demo=$O/${L}_demo_test.go
 pkgdir=$(grep -m1 -io 'package directory *[a-z/]*' $demo | awk '{print $NF}' | sed 's#/$##')
